@@ -14,6 +14,7 @@ import (
 	"encoding/json"
 	"fmt"
 	"math/rand"
+	"net"
 	"net/netip"
 	"os"
 	"sort"
@@ -23,6 +24,7 @@ import (
 
 	"github.com/mycoria/mycoria/config"
 	"github.com/mycoria/mycoria/frame"
+	"github.com/mycoria/mycoria/m"
 	"github.com/mycoria/mycoria/peering"
 
 	"verifharness/internal/linkworld"
@@ -210,6 +212,10 @@ func (r *runner) run(plan []fault, dir string, n int, sizes []int, garbageLen in
 		break
 	}
 	dirty := len(plan) == 0 || r.rng.Intn(3) == 0
+	strangers := len(plan) == 0 || r.rng.Intn(4) == 0
+	if strangers {
+		drain.Hold.Store(true) // and the receiver's frame handler takes its time
+	}
 	var sent [][]byte
 	var payloads [][]byte
 	bigMode := false
@@ -237,6 +243,13 @@ func (r *runner) run(plan []fault, dir string, n int, sizes []int, garbageLen in
 				apx = make([]byte, 10000)
 			}
 			r.rng.Read(apx)
+		}
+		if strangers && !filler && i < 3 {
+			// history on the RECEIVER: strangers at its listener whose first frame is well-formed up to the header but
+			// names a switch block or a message longer than the frame itself
+			for k := 0; k < 4; k++ {
+				brokenHandshake(to, r.rng)
+			}
 		}
 		if dirty && !filler {
 			// history on the RECEIVER: frame constructions that are refused (oversized message), on enough goroutines
@@ -385,6 +398,47 @@ func (r *runner) run(plan []fault, dir string, n int, sizes []int, garbageLen in
 	}
 	res.Proxy.Close()
 	return events, desc
+}
+
+// brokenHandshake: somebody connects to n's listener and answers the peering request with a frame whose header is
+// fine and whose inner lengths point beyond its end; the set-up fails.
+func brokenHandshake(n *world.Node, rng *rand.Rand) {
+	ca, cb := net.Pipe()
+	url, _ := m.ParsePeeringURL("tcp://127.0.0.1:47369")
+	done := make(chan struct{})
+	go func() {
+		defer close(done)
+		if l, _ := n.Peer.VerifSetupLink(cb, url, false); l != nil {
+			l.Close(nil)
+		}
+	}()
+	go func() { // whatever the router says is read and ignored
+		buf := make([]byte, 4096)
+		for {
+			_ = ca.SetReadDeadline(time.Now().Add(time.Second))
+			if _, err := ca.Read(buf); err != nil {
+				return
+			}
+		}
+	}()
+	raw := make([]byte, 48+3+20+rng.Intn(400))
+	rng.Read(raw[5:])
+	raw[0], raw[1], raw[2], raw[3], raw[4] = 1, 1, 0, 0, uint8(frame.RouterPing)
+	if rng.Intn(2) == 0 {
+		raw[48] = 0                   // no switch block,
+		raw[49], raw[50] = 0xff, 0xf0 // a message of 65520 bytes
+	} else {
+		raw[48] = 0xff // a switch block of 255 bytes
+	}
+	out := append([]byte{byte((len(raw) + 2) >> 8), byte(len(raw) + 2)}, raw...)
+	_ = ca.SetWriteDeadline(time.Now().Add(time.Second))
+	_, _ = ca.Write(out)
+	select {
+	case <-done:
+	case <-time.After(2 * time.Second):
+	}
+	_ = ca.Close()
+	<-done
 }
 
 func drainPeek(d *linkworld.Drain) [][]byte {
